@@ -78,7 +78,9 @@ def jobs_for(tier):
     if tier == 'quick':
         tpls = [BY_ID[i] for i in QUICK_IDS]
     else:
-        tpls = [t for t in corpus.TEMPLATES if 'heavy' not in t['feats']] + EXTRA
+        tpls = [t for t in corpus.TEMPLATES if 'heavy' not in t['feats']] + EXTRA + corpus.generated()
+    if tier == 'quick':
+        tpls = tpls + corpus.generated(quick=True)
     for t in tpls:
         for ind in INDENTS[tier]:
             for ne in ((False, True) if ('enum' in t['feats'] and tier == 'thorough') else (False,)):
